@@ -465,8 +465,16 @@ class Machine:
                 if "int" in c:
                     return int(c["int"])
                 if "bytes_hex" in c:
-                    v = shape_bytes(c.get("ty") or "", bytes.fromhex(c["bytes_hex"]))
-                    return v if v is not None else Tup(list(bytes.fromhex(c["bytes_hex"])))
+                    # (the type as the use site spells it has its length evaluated: `[u64; 64]` where the item says `[u64; LIMB_BITS]`)
+                    raw = bytes.fromhex(c["bytes_hex"])
+                    for ty_ in (op.get("ty") or "", c.get("ty") or ""):
+                        v = shape_bytes(ty_, raw)
+                        if v is not None:
+                            return v
+                    tys = (op.get("ty") or c.get("ty") or "").strip()
+                    if re.match(r"^\[u8; [^\]]+\]$", tys) or not tys.startswith("["):
+                        return Tup(list(raw))
+                    return T("const", op.get("text") or tys)         # an array of something wider than a byte: not a byte list
         if "promoted" in op:
             pb = self.F.promoted.get((op.get("uneval_def"), op["promoted"]))
             if pb is not None:
